@@ -62,7 +62,7 @@ ExtLabels(x, accNew, plain) ==
              \cup L(x.far = 0 /\ ~x.isq, "C16/steer-near")
              \cup L(x.far = 1 /\ (Abs(x.step - hdr.maxd) > tol \/ x.gd > tol), "C16/steer-far")
              \cup L(x.far = 2 /\ ~x.isq /\ (Abs(x.step - hdr.maxd) > tol \/ x.gd > tol), "C16/steer-far")
-             \cup L(x.new \notin accNew, "C01/node-valid")
+             \cup L(~x.nv, "C01/node-valid")
              \cup L(x.orc = 1, "C16/no-add-on-invalid")
              \cup L(plain /\ x.step > hdr.maxd + tol, "C05/edge-length")
              \cup L(plain /\ ~CoversPos(x.cov, x.len, hdr.lvs, tol), "C03/coverage[ext]")
@@ -206,7 +206,7 @@ PSampleLabels(e, accNew) ==
  \cup L(api.road0 > 0, "C18/construct-idempotent")
  \cup L(e.q # 0 /\ e.valid /\ ~e.pushed, "C18/milestones")
  \cup L(e.pushed /\ ~e.valid, "C18/milestones")
- \cup L(e.pushed /\ e.q \notin accNew, "C01/node-valid")
+
  \cup L(\E j \in 1 .. Len(e.links) : e.links[j].linked /\ e.links[j].inr = 0, "C05/edge-length")
  \cup L(\E j \in 1 .. Len(e.links) : e.links[j].linked /\ e.links[j].orc = 1, "C18/edge-justified")
  \cup L(\E j \in 1 .. Len(e.links) : e.links[j].linked
@@ -320,6 +320,7 @@ CommonRetLabels(e) ==
      \cup L(\E k \in 2 .. Len(e.path) : ~e.pvalid[k] /\
               ~(k = Len(e.path) /\ Len(trees[2]) >= 1 /\ e.path[k] = trees[2][1].s), "C01/path-valid")
      \cup L(e.start_inb /\ \E k \in 1 .. Len(e.path) : ~e.pinb[k], "C04/in-bounds")
+     \cup L(e.feas = 0, "C06/ok-implies-reachable")
      \cup L(\E k \in 1 .. Len(e.plen) : e.plen[k] > Bound + hdr.tol, "C05/edge-length")
        ELSE {})
 
@@ -360,6 +361,18 @@ EvStream(e) ==
             /\ nviol' = nviol + Cardinality(v)
             /\ UNCHANGED <<hdr, trees, acc, api>>
 
+(***************************************************************************)
+(* C17: RRT* against plain RRT on the same seed, problem and budget.       *)
+(***************************************************************************)
+EvPair(e) ==
+  LET v ==  L(~e.nodes_equal, "C17/vs-rrt[nodes]")
+       \cup L(e.ok_star # e.ok_rrt, "C17/vs-rrt[outcome]")
+       \cup L(e.ok_star /\ e.ok_rrt /\ ~e.same_end, "C17/vs-rrt[end]")
+       \cup L(e.ok_star /\ e.ok_rrt /\ e.len_star > e.len_rrt + hdr.tol, "C17/vs-rrt[length]")
+  IN /\ Report(v)
+     /\ nviol' = nviol + Cardinality(v)
+     /\ UNCHANGED <<hdr, trees, acc, api>>
+
 Next ==
   /\ l <= N
   /\ l' = l + 1
@@ -376,6 +389,7 @@ Next ==
          [] e.ev = "cret"  -> EvCRet(e)
          [] e.ev = "query" -> EvQuery(e)
          [] e.ev = "stream" -> EvStream(e)
+         [] e.ev = "pair" -> EvPair(e)
 
 Spec == Init /\ [][Next]_mvars
 
